@@ -84,6 +84,7 @@ type LemmaDef struct {
 	Line   int
 	Uses   []string
 	Trigs  [][]Expr
+	Global bool // assumed in every function (axioms of the assumed model only)
 }
 
 type AtomicInv struct {
@@ -470,6 +471,10 @@ func (cs *ContractSet) parseBlock(b []rawLine, file, pkg string) error {
 			hd = strings.TrimSpace(hd[:j])
 		}
 		hf := strings.Fields(hd)
+		if len(hf) > 1 && hf[0] == "global" {
+			ld.Global = true
+			hf = hf[1:]
+		}
 		ld.Name = hf[0]
 		if len(hf) == 3 && hf[1] == "arith" {
 			ld.Arith = hf[2]
